@@ -7,7 +7,7 @@ CHECKS = {
  "C01": dict(
    technique="property-based fuzzing with process isolation: proptest-generated free-mode templates (grammar over every construct and built-in, boundary arguments, mutations, ladders) plus an enumerated built-in x boundary-argument grid and an enumerated family of loop accumulators, run in worker processes of a debug (opt-level 0, overflow checks) and a release build on 2 MiB and 8 MiB threads; oracle = the worker survives and no panic is caught; parent-side delta-debugging shrinker for crashes; thorough tier adds a coverage-guided libFuzzer campaign (harness/fuzz, target render_bytes) with the same oracle",
    level="exploration",
-   text="Generated templates, companions and contexts are loaded, rendered and evaluated as expressions in child processes; every returned error is formatted in all forms. A panic (caught in the worker), a native stack overflow, an abort or a failed allocation larger than the worker's whole address-space limit is a violation attributed to the case that was running and shrunk by re-spawning single-case children. An enumerated grid applies every built-in filter/test (static list plus the names registered in the tree under test) and every function/loop method to 20 subjects (incl. strings starting with multi-byte characters) with 0-3 boundary arguments and keyword arguments; 15 step expressions grow a namespace attribute over 6 000-120 000 loop steps and 8 consumers use it. Thorough: libFuzzer, 16 processes x VERIF_FUZZ_SECONDS (default 900 s), inputs up to 4 KiB split into main source and companions, crash artifacts re-run alone and saved as replay files.",
+   text="Generated templates, companions and contexts are loaded, rendered and evaluated as expressions in child processes; every returned error is formatted in all forms. A panic (caught in the worker), a native stack overflow, an abort or a failed allocation larger than the worker's whole address-space limit is a violation attributed to the case that was running and shrunk by re-spawning single-case children. An enumerated grid applies every built-in filter/test (static list plus the names registered in the tree under test) and every function/loop method to 20 subjects (incl. strings starting with multi-byte characters) with 0-3 boundary arguments and keyword arguments; range() is enumerated over all triples of 16 boundary integers and string literals over every sequence of up to three escape pieces (surrogate halves, malformed \\u/\\x/octal escapes) in four syntactic positions; 15 step expressions grow a namespace attribute over 6 000-120 000 loop steps and 8 consumers use it; 600 programs let a recursive loop object travel into foreign code. Thorough: libFuzzer, 16 processes x VERIF_FUZZ_SECONDS (default 900 s), inputs up to 4 KiB split into main source and companions, crash artifacts re-run alone and saved as replay files.",
    note="Four listed findings (deep operator ladders, deeply nested values, lazy slice chains, block self-recursion) are native stack overflows; they are excluded by construction (ladder length and fuel caps, no self.block() inside blocks, no re-slicing accumulator) and only their own witnesses are matched. Hangs/oom under the harness limit are counted as inconclusive watchdog hits, not violations.",
    design="3/C01"),
  "C02": dict(
@@ -19,7 +19,7 @@ CHECKS = {
  "C03": dict(
    technique="property-based testing against a reference model: a scope-tracking generator (driven by a proptest byte tape, so programs shrink) emits well-typed programs of the core fragment; an independent reference interpreter of the documented semantics (harness/src/refint.rs) is the oracle for output and error-or-not",
    level="exploration",
-   text="Programs over expressions, if/elif/else, for/else with loop filters, unpacking and every loop.* attribute printed in every loop, set and set-blocks, with, macros with defaults/keyword arguments/caller(), call blocks with parameters, filter blocks and optional break/continue are rendered against 4 contexts of ints, strings, lists and maps. After every scoped construct the generator inserts probes printing `name is defined` and the value for names assigned inside and before it, so scoping is observed, not assumed. A pinned set of hand-written programs (minimal forms of the defects found, documentation shapes) runs first.",
+   text="Programs over expressions, if/elif/else, for/else with loop filters, unpacking and every loop.* attribute printed in every loop, set and set-blocks, with, macros with defaults/keyword arguments/caller(), call blocks with parameters, filter blocks and optional break/continue are rendered against 4 contexts of ints, strings, lists and maps. After every scoped construct the generator inserts probes printing `name is defined` and the value for names assigned inside and before it, so scoping is observed, not assumed. A pinned set of hand-written programs (minimal forms of the defects found, documentation shapes) runs first; two enumerated families follow: unpacking assignments whose right-hand side reads the names being assigned (set/with, tuple/list literal, nested targets, in four surroundings) and macros/call blocks declared in a loop body that read a name one iteration assigns.",
    note="The reference interpreter is the assumption: it was written from the documentation, not from the engine, and where the documentation is silent the generator does not go (listed in the evidence assumptions). Programs the interpreter flags as outside its fragment are skipped and counted (label outside_fragment).",
    design="3/C03"),
  "C04": dict(
@@ -31,19 +31,19 @@ CHECKS = {
  "C05": dict(
    technique="property-based testing with path enumeration: generated skeletons of nested scoped constructs with break/continue at every accepted position, every control-flow path driven through context booleans and list lengths, state-balance invariant observed through the verif_hooks monitor plus sentinel/scope/escape probes in the output",
    level="exploration",
-   text="For each generated program all assignments of its condition booleans and loop lengths (up to 160, else sampled) are rendered in .txt and .html; per path the feature-guarded balance monitor (frame depth, capture depth, auto-escape stack and operand stack equal at entry and normal exit of every instruction-stream evaluation; no foreign frame/capture popped) must stay silent, markers written after every top-level construct must reach the output in order, the escape mode and outer variables must be as before, inner assignments of isolating constructs must be gone.",
+   text="For each generated program all assignments of its condition booleans and loop lengths (up to 160, else sampled) are rendered in .txt and .html; per path the feature-guarded balance monitor (frame depth, capture depth, auto-escape stack and operand stack equal at entry and normal exit of every instruction-stream evaluation; no foreign frame/capture popped) must stay silent, markers written after every top-level construct must reach the output in order, the escape mode and outer variables must be as before, inner assignments of isolating constructs must be gone, and so must whatever an included template assigned while it ran inside a construct with a scope of its own (also a block that assigns nothing itself).",
    note="Paths are complete only for programs with at most 160 assignments. The reference-interpreter comparison of whole outputs is part of C03.",
    design="3/C05"),
  "C06": dict(
    technique="property-based testing against a reference model plus exhaustive enumeration of small shape vectors: inheritance chains are generated as shape vectors (per template and block: absent / override / super before, after, twice / self-call; extends styles; include and import placements), turned into template sets and compared with the reference interpreter's multi-template semantics; error shapes are enumerated and must come back as errors of the documented kind",
    level="exploration",
-   text="Chains of 1-5 templates over blocks a, b, c nested in a, d nested in c with every override/super choice, extends as first tag / after text / inside if / dynamic / conditional expression, top-level set and outside text, includes (literal, dynamic, lists with missing entries, ignore missing, an included template with its own chain reusing a block name) and import / from-import placed at top level, in blocks, loops, with-blocks and macros. All shape vectors over {a, c in a} for chains up to 4 templates are enumerated in the quick tier (5 in thorough). 136 error shapes (inheritance, include and import cycles, double extends, missing parent/include/import, super() without parent or outside a block, required block not overridden) must yield Err with the documented kind, with and without leading text.",
+   text="Chains of 1-5 templates over blocks a, b, c nested in a, d nested in c with every override/super choice, extends as first tag / after text / inside if / dynamic / conditional expression, top-level set and outside text, includes (literal, dynamic, lists with missing entries, ignore missing, an included template with its own chain reusing a block name) and import / from-import placed at top level, in blocks, loops, with-blocks, macros and inside a top-level set block whose value the blocks print (every kind x place x level of short chains enumerated); from-import of names only the importer or the globals define; a module variable built by a set block containing a block. All shape vectors over {a, c in a} for chains up to 4 templates are enumerated in the quick tier (5 in thorough). 136 error shapes (inheritance, include and import cycles, double extends, missing parent/include/import, super() without parent or outside a block, required block not overridden) must yield Err with the documented kind, with and without leading text. Hand-written compositions (self.block() in blocks, at the top level of a child, during super() of the same block; include lists; import) are compared with outputs derived by hand from the statement.",
    note="Oracle = harness/src/refint.rs, written from the documentation. Not generated because the documentation is silent: reading names an included template assigned, super() into a required block, what a macro sees of later top-level assignments.",
    design="3/C06"),
  "C07": dict(
    technique="property-based testing: law checking (reflexive/antisymmetric/transitive/eq-cmp-hash agreement) over generated value triples biased to same-value-different-representation twins; metamorphic agreement of template operators; algebraic laws of sort/unique/groupby/batch/slice/reverse/min/max over generated inputs with hidden identities; both map implementations",
    level="exploration",
-   text="Generated triples and pairs of values of every kind and representation are checked against the order/equality/hash laws at the Value API and through template operators (==, <, in, dict lookup, unique, is eq); collection filters are checked against their defining laws (ordered + permutation + stable, partition, concatenation, involution, bounds) on inputs with hidden ids. Run for the BTreeMap build and, as a sub-process, the preserve_order (IndexMap) build.",
+   text="Generated triples and pairs of values of every kind and representation are checked against the order/equality/hash laws at the Value API and through template operators (==, <, in, dict lookup, unique, is eq); collection filters are checked against their defining laws (ordered + permutation + stable, partition, concatenation, involution, bounds) on inputs of up to 71 items (thorough 159; long enough for every algorithm of the standard sort) with hidden ids. Run for the BTreeMap build and, as a sub-process, the preserve_order (IndexMap) build.",
    note="Sortedness of filter output is judged with Value::cmp (the order itself is judged by the laws part). Case-insensitive order of non-ASCII strings is not asserted (differs with the unicode feature). One open known finding (map insertion order under preserve_order).",
    design="3/C07"),
  "C08": dict(
@@ -55,17 +55,17 @@ CHECKS = {
  "C09": dict(
    technique="property-based testing: complete enumeration of the quantifier's box plus proptest-generated boundary cases, differential against a Python slice.indices model",
    level="exploration",
-   text="Every (kind, len, start, stop, step) of the stated box is enumerated (8 value kinds x len 0..=6 x 20 x 20 x 10 bounds, literal and variable form) together with i64-boundary and beyond-i64 rows and random cases; results (kind and items) are compared with an independent model of Python's slicing and subscripting.",
+   text="Every (kind, len, start, stop, step) of the stated box is enumerated (8 value kinds x len 0..=6 x 20 x 20 x 10 bounds, literal and variable form) together with i64-boundary and beyond-i64 rows and random cases; results (kind and items) are compared with an independent model of Python's slicing and subscripting, and every slice result is sliced, subscripted from the end and measured again against the same model.",
    note="Trusts model/pyslice.rs (unit tested on CPython examples, cross-checked with python3 in the thorough tier). Out-of-range subscripts are expected to be undefined. Exhaustive only inside the stated box.",
    design="3/C09"),
  "C10": dict(
-   technique="model-based property testing (whitespace rules as worded vs engine, enumerated for short sequences and generated beyond) plus metamorphic testing (same program under 12 delimiter sets, line statements vs whole-line block tags)",
+   technique="model-based property testing (whitespace rules as worded vs engine, enumerated for short sequences and generated beyond) plus metamorphic testing (same program under 12 fixed and random delimiter configurations, line statements vs whole-line block tags) plus differential testing of styled programs against the reference interpreter",
    level="exploration",
-   text="(a) Sequences of text and variable/block/comment/raw tags with every marker on either side are rendered under the 8 whitespace settings and compared with an independent model of the documented rules, with default delimiters and re-spelled under three custom delimiter sets (one prefix-sharing, one whose block start can overlap itself); all sequences of length <= 2 and all text-tag-text / tag-text-tag triples over a 37-symbol alphabet are enumerated. (b) Generated single-file programs whose text consists of partial and look-alike delimiters must render identically (or fail alike) with default delimiters and with each of 12 delimiter sets incl. prefix-sharing and nested-prefix ones. (c) Default-looking delimiters are verbatim text under a custom syntax; line statements/comments behave like whole-line tags.",
-   note="A lone CR next to a tag is outside the model (undocumented whether it is a line boundary). (b) compares the engine with itself under two printings of the same AST; the core-fragment reference interpreter is used by C03, not here.",
+   text="(a) Sequences of text and variable/block/comment/raw tags with every marker on either side are rendered under the 8 whitespace settings and compared with an independent model of the documented rules, with default delimiters and re-spelled under three custom delimiter sets (one prefix-sharing, one whose block start can overlap itself); all sequences of length <= 2 and all text-tag-text / tag-text-tag triples over a 37-symbol alphabet are enumerated. (b) Generated single-file programs whose text consists of partial and look-alike delimiters must render identically (or fail alike) with default delimiters and with each of 12 delimiter sets incl. prefix-sharing and nested-prefix ones. (c) Default-looking delimiters are verbatim text under a custom syntax; line statements/comments behave like whole-line tags. (d) Well-typed programs (C03 generator) with whitespace/look-alike texts are printed in a random style - fixed or random delimiter configuration, -/+ markers on any tag, free spacing in tags, whitespace that a marker removes, comments, texts as raw blocks, block tags as line statements, 8 settings - the per-text-run form of the whitespace model says which characters survive, and the reference interpreter run on the program with exactly those texts must agree with the engine. (b) and (d) draw random unambiguous delimiter configurations (prefix-sharing, self-overlapping, single-character).",
+   note="A lone CR next to a tag is outside the model (undocumented whether it is a line boundary). (b) compares the engine with itself under two printings of the same AST; (d) is judged by model/ws.rs + refint.rs. Not generated (meaning undocumented): end delimiters that begin with a marker character or whitespace, text completing a delimiter across a tag boundary, trailing line comments.",
    design="3/C10"),
  "C11": dict(
-   technique="property-based testing with process isolation: generated recursive program shapes (cycles over macro / call-block / include / import edges, recursive loops over deep data, block self-calls, super() chains, with random non-recursive work per frame) rendered in worker processes of debug and release builds on 2 MiB and 8 MiB threads; outcome oracle (limit error / Ok, never a signal) plus monotonicity in the limit",
+   technique="property-based testing with process isolation: generated recursive program shapes (cycles over macro / call-block / include (literal, list, list with a missing first entry, ignore missing, computed name) / import edges, recursive loops over deep data, block self-calls, super() chains, with random non-recursive work per frame) rendered in worker processes of debug and release builds on 2 MiB and 8 MiB threads; outcome oracle (limit error / Ok, never a signal) plus monotonicity in the limit",
    level="exploration",
    text="Each generated shape is rendered with a generated recursion limit in a child process; the child must survive, unbounded shapes must fail with `recursion limit exceeded` somewhere in the cause chain, bounded ones may also succeed, no other error is accepted, and lowering the limit must not make the limit error disappear. Process deaths are attributed to the shape (edge kinds) that was running.",
    note="One listed finding: block self-recursion and deep super() chains overflow 2 MiB stacks in debug builds (pinned accounting); crash signatures naming the block edge are tolerated, all others are violations.",
@@ -73,7 +73,7 @@ CHECKS = {
  "C12": dict(
    technique="property-based testing: metamorphic relation over four configurations (Strict/SemiStrict/Lenient/Chainable renders of the same generated program), plus complete enumeration of the documented site x mode matrix",
    level="exploration",
-   text="Generated programs (free-mode and a mostly-well-typed generator that plants undefined operands in every operand position) are rendered under the four undefined behaviours with a recording context; success under a stricter mode must imply success with byte-identical output under every weaker mode. The documented matrix (print / iterate / truth test / attribute-or-item access / is defined / is undefined / default) is enumerated over 40 syntactic sites x 4 kinds of undefined operand x 4 modes.",
+   text="Generated programs (free-mode and a mostly-well-typed generator that plants undefined operands in every operand position) are rendered under the four undefined behaviours with a recording context; success under a stricter mode must imply success with byte-identical output under every weaker mode. The documented matrix (print / iterate / truth test / attribute-or-item access / is defined / is undefined / default) is enumerated over 40 syntactic sites x 4 kinds of undefined operand x 4 modes, plus 18 multi-template rows (the same sites after extends where output is discarded, at the top level of imported modules, in included templates, inherited and overriding blocks, call blocks, macro defaults).",
    note="The matrix rows are language sites; individual filters are only covered by the monotonicity relation (their strict-mode behaviour differs between filters and is not documented). debug() is excluded.",
    design="3/C12"),
  "C13": dict(
@@ -97,31 +97,31 @@ CHECKS = {
  "C16": dict(
    technique="property-based testing: round-trip oracle over generated serde shape trees (every variant/struct/map-key shape), identity oracle for embedded Values, differential of tojson / JSON auto-escape output against an independent strict RFC 8259 parser",
    level="exploration",
-   text="Generated shape trees are instantiated through a Rust enum covering the serde data model and must satisfy T::deserialize(Value::from(Serde(&x))) == x (by-value and by-reference deserializer); structs embedding Values must expose the very same values (safe flag, undefined, object identity); tojson (with/without indent, .txt/.html) and {{ v }} in .json templates must emit text that an independent strict JSON parser accepts and that equals the value under the stated equivalences, and tojson output must not contain < > & '. Both map implementations.",
+   text="Generated shape trees are instantiated through a Rust enum covering the serde data model and must satisfy T::deserialize(Value::from(Serde(&x))) == x (by-value and by-reference deserializer); structs embedding Values must expose the very same values (safe flag, undefined, object identity), also behind a field whose Serialize impl runs a nested Value conversion; tojson (with/without indent, .txt/.html) and {{ v }} in .json templates must emit text that an independent strict JSON parser accepts and that equals the value under the stated equivalences, and tojson output must not contain < > & '. Both map implementations.",
    note="Trusts model/json.rs (unit tested). Integers above 64 bits and unit-vs-none are outside the round-trip domain as the property states.",
    design="3/C16"),
  "C17": dict(
    technique="property-based testing: complete enumeration of template names over the quantifier's segment alphabet plus proptest-generated noise names, validity oracle on the returned content against a scratch directory tree with canary files; safe_join additionally checked as a pure function",
    level="exploration",
-   text="Every join of up to 5 segments of the 14-entry alphabet (579 194 names) and generated noise names are loaded through get_template, include, include-list, extends and import from a real directory tree whose files state their own relative path and whose surroundings hold OUTSIDE canaries; an Ok result must be the INSIDE file named by the non-empty, non-dot segments. safe_join (via the verif_hooks re-export) must return None or a path whose components are exactly those segments.",
+   text="Every join of up to 5 segments of the 14-entry alphabet (579 194 names) and generated noise names are loaded through get_template, include, include-list, extends and import from a real directory tree whose files state their own relative path and whose surroundings hold OUTSIDE canaries; an Ok result must be the INSIDE file named by the non-empty, non-dot segments. safe_join (via the verif_hooks re-export) must return None or a path whose components are exactly those segments, for the scratch base and nine other spellings of a base (empty, relative, trailing separator, root).",
    note="Assumes Linux path semantics and no symlinks inside the base. Exhaustive only over the stated alphabet and length.",
    design="3/C17"),
  "C18": dict(
    technique="property-based testing: generated single-file templates rendered with a recording context object; one-directional inclusion oracle (keys the engine looked up, minus globals, must be contained in undeclared_variables)",
    level="exploration",
    text="A generator aimed at assignment shapes that read what they assign (set/with/set-block/macro defaults/loop targets/one-branch assignments/special names as plain variables), plus free-mode and tame programs, is rendered over random context subsets with an Object that logs every key requested; the logged keys minus the environment's globals must be a subset of undeclared_variables(false) and of the first segments of undeclared_variables(true).",
-   note="One direction only (over-approximation is allowed). Debug mode off. One listed finding: a macro's own name is enclosed (looked up) at declaration.",
+   note="One direction only (over-approximation is allowed). Debug mode off. Three listed findings: a macro's own name is enclosed (looked up) at declaration; a block rendered through self.b() from a macro reads template-level names from the context; loop() recursion from inside a call block runs on the macro context.",
    design="3/C18"),
  "C19": dict(
    technique="fault injection with property-based program generation: for every generated program the output sink is made to fail at every write position (every k up to the number of writes) with several error kinds, short writes and interrupted writes; prefix/no-write-after-error/error-source oracle against the payload sequence of a never-failing sink",
    level="fault_enumeration",
-   text="Each generated program (text, numeric fast paths, escaping, macros, call blocks, includes, captures, recursive loops, inheritance, self-failing programs) is first rendered into a recording sink; then the sink fails at the k-th write for every k (sampled beyond 96 writes) and the bytes received, the absence of later writes, the returned ErrorKind::WriteFailure and its io::Error source are checked; render_captured_to and State::render_block_to_write.",
+   text="Each generated program (named .txt/.html/.json/.yaml: no, HTML and JSON auto-escaping; text, numeric fast paths, escaping, macros, call blocks, includes, captures, recursive loops, inheritance, self-failing programs) is first rendered into a recording sink; then the sink fails at the k-th write for every k (sampled beyond 96 writes) and the bytes received, the absence of later writes, the returned ErrorKind::WriteFailure and its io::Error source are checked; render_captured_to and State::render_block_to_write.",
    note="Assumes the write sequence of a render is deterministic (verified per case against render()).",
    design="3/C19"),
  "C20": dict(
    technique="schedule enumeration as property-based testing: every placement of up to 3 reload requests at the lock-granularity yield points of up to 3 acquire_env calls (through feature-guarded hooks) x option combinations, history invariant over a logical clock; proptest for longer schedules; real-thread stress as smoke test",
    level="exploration",
-   text="All schedules of up to 3 acquires and up to 3 requests (placed before the acquire, after the cache lock, between check and flag reset, between reset and creator, inside the creator, after the rebuild, before return, under the held guard) x fast reload x freshness callback x failing creator are executed against the real AutoReloader; for every request that returned at logical time t the first successful acquire started after t must return an environment whose creator started (or whose cache was cleared) after t; the environment must not change under a held guard; no rebuild without a request.",
+   text="All schedules of up to 3 acquires and up to 3 requests (placed before the acquire, after the cache lock, between check and flag reset, between reset and creator, inside the creator, after the rebuild, before return, under the held guard) x fast reload x freshness callback x failing creator (returning an error, or panicking with the panic contained) are executed against the real AutoReloader; for every request that returned at logical time t the first successful acquire started after t must return an environment whose creator started (or whose cache was cleared) after t; the environment must not change under a held guard; no rebuild without a request.",
    note="Interleavings are produced deterministically on one thread through the yield-point callback (the notifier lock is not held at those points); preemption inside a critical section is not modelled. The thread stress part only samples.",
    design="3/C20"),
 }
